@@ -20,10 +20,10 @@ META = dict(
 def run(c):
     binp = c.build("txn")
     c.tlc_must_pass("TxnStoreMC", c.pick("TxnStoreMC.cfg", "TxnStoreMC_thorough.cfg"), workers=8, timeout=c.pick(300, 1500))
-    g = _txncfg.gen(c, "a", MaxStores=2, MaxTxns=6, MaxOps=c.pick(14, 40), Keys=c.pick(12, 20), DupStores=True)
+    g = _txncfg.gen(c, "a", MaxStores=2, MaxTxns=6, MaxOps=c.pick(14, 40), Keys=c.pick(12, 20), DupStores=True, Neighbour=True)
     seq = txnlib.run_driver(c, binp, "seq", _txncfg.cfg(c, "seq", c.pick(60, 500), g))
     gf = _txncfg.gen(c, "f", MaxTxns=3, MaxOps=10, Keys=10, Slots=[2, 4], Rollbacks=False)
-    flt = txnlib.run_driver(c, binp, "fault", _txncfg.cfg(c, "fault", c.pick(3, 12), gf, max_fault=c.pick(10, 0)),
+    flt = txnlib.run_driver(c, binp, "fault", _txncfg.cfg(c, "fault", c.pick(1, 12), gf, max_fault=c.pick(24, 0)),
                             timeout=c.pick(600, 3000))
     observes = 0
     classes = collections.Counter()
